@@ -14,6 +14,9 @@
   * `get_hash` = `H (canon g)` for an injective `H` (md5 prefix of the JSON of the name-sorted name→value
     map; injectivity is the stated assumption); the model works with `canon g` itself.
 
+  The gate attributes `allow_mutations` / `on_mutation` / `mutation_rate` are PUBLIC and may be re-assigned on a live
+  genome (`Op.assign`); every method reads them at call time.
+
   Not modelled: `description`, timestamps, `modifier`/`reason` free text other than the four reasons the code
   itself passes, console output, `get_statistics` (its counters are functions of the log), callbacks that re-enter the genome or tamper with the `Mutation` record.
 -/
@@ -275,6 +278,23 @@ structure Gate where
   rate : Bool
   deriving Repr, DecidableEq
 
+/-! ### public attributes re-assigned on a live genome
+
+`allow_mutations`, `on_mutation` and `mutation_rate` are plain public attributes: `genome.allow_mutations = False`
+after construction is ordinary use ("bootstrap open, then lock").  Every method reads them at call time, so the
+model's gate is simply the current field; an assignment changes that one field and nothing else. -/
+
+inductive Assign where
+  | allow (b : Bool)            -- `g.allow_mutations = b` (any truthy / falsy object)
+  | cb (c : Option Nat)         -- `g.on_mutation = <callback object c>` / `= None`
+  | rate (b : Bool)             -- `g.mutation_rate = x`, `b` = (x > 0)
+  deriving Repr, DecidableEq
+
+def assign (g : Genome ν) : Assign → Genome ν
+  | .allow b => { g with allow := b }
+  | .cb c => { g with cb := c }
+  | .rate b => { g with rate := b }
+
 /-! ### the lineage store and its operations -/
 
 structure Store (ν : Type) where
@@ -296,6 +316,7 @@ inductive Op (ν : Type) where
   | validate (i : Nat)
   | listGenes (i : Nat)
   | diff (i : Nat) (j : Nat)
+  | assign (i : Nat) (a : Assign)
 
 inductive Obs (ν : Type) where
   | created (id : Nat)
@@ -307,6 +328,7 @@ inductive Obs (ν : Type) where
   | invalid (silencedRequired : List Nat)
   | listing (l : List (Nat × ν × GType × Option Level × Bool))
   | diffs (d : List (Nat × Option ν × Option ν))
+  | assigned
   | bad
   deriving Repr, DecidableEq
 
@@ -362,6 +384,10 @@ def step (env : Env ν) (st : Store ν) : Op ν → Store ν × Obs ν
     match st.genomes[i]?, st.genomes[j]? with
     | some g, some h => (st, .diffs (diff env g h))
     | _, _ => (st, .bad)
+  | .assign i a =>
+    match st.genomes[i]? with
+    | none => (st, .bad)
+    | some g => (⟨st.genomes.set i (assign g a), st.calls, st.draws⟩, .assigned)
 
 /-- the store after a history -/
 def run (env : Env ν) (st : Store ν) : List (Op ν) → Store ν
